@@ -311,6 +311,8 @@ def run_wordlist_alignments(chk):
     from lingpy import Alignments
     rng = chk.rng
     fails = []
+    bad_col, ncol = [], 0
+    drv = common.Driver()
     n = chk.n(120, 3200)
     for it in range(n):
         d = wlgen.gen_wordlist(rng, with_tokens=True, with_cogid=True, min_langs=2, max_langs=5, max_concepts=4)
@@ -353,6 +355,31 @@ def run_wordlist_alignments(chk):
                     e = 'word %d outside any multi-member set was changed' % k
         if e:
             fails.append((d, e))
+            continue
+        # _msa2col against the Lean model (theorem C04_wordlist): word ids, their segments, the member ids and aligned rows of every
+        # multiple alignment the object holds for this cognate column  ->  the alignment column
+        try:
+            code = {'-': 0}
+            ids_ = [k for k in alm]
+            tok_rows = [[code.setdefault(x, len(code)) for x in alm[k, 'tokens']] for k in ids_]
+            groups, rows_ = [], []
+            for g, msa in alm.msa[ref].items():
+                groups.append(list(msa['ID']))
+                rows_ += [[code.setdefault(x, len(code)) for x in r] for r in msa['alignment']]
+            if groups and all(tok_rows) and all(rows_):
+                o = drv.ask('msa2col|%s|%s|%s|%s' % (' '.join(map(str, ids_)), rows_line(tok_rows), rows_line(groups), rows_line(rows_)))
+                real_col = [[code.get(x, 10 ** 6) for x in alm[k, 'alignment']] for k in ids_]
+                ncol += 1
+                if o != 'M ' + rows_line(real_col):
+                    bad_col.append((d, ref, o[:200], rows_line(real_col)[:200]))
+        except Exception as ex:  # noqa
+            bad_col.append((d, ref, 'tie raised %s: %s' % (type(ex).__name__, str(ex)[:80]), ''))
+    drv.close()
+    chk.obligation('correspondence:Alignments._msa2col == Lean msa2col on the observed per-set alignments (theorem C04_wordlist)', 'correspondence',
+                   not bad_col, 'wordlists=%d mismatches=%d %s' % (ncol, len(bad_col), str(bad_col[0][1:])[:300] if bad_col else ''))
+    if bad_col and not fails:
+        chk.violation("Alignments.align: the alignment column differs from the model's write-back of the per-set alignments; the oracle found no failing input",
+                      {'kind': 'alignments-model', 'dict': {str(k): v for k, v in bad_col[0][0].items()}, 'detail': bad_col[0][1:], 'broken': 'correspondence:_msa2col'}, found_input=False)
     chk.obligation('oracle:Alignments.align per cognate set', 'correspondence', not fails, 'wordlists=%d failures=%d' % (n, len(fails)))
     for f in sorted(fails, key=lambda f: len(f[0]))[:1]:
         chk.violation('Alignments.align: %s' % f[1], {'kind': 'alignments', 'dict': {str(k): v for k, v in f[0].items()}, 'why': f[1]})
